@@ -537,11 +537,17 @@ func mangle(c context, templateName string) string {
 	// The mangled name for the default context is the input templateName. The default
 	// context includes the content of all elements in which actions are sanitized like in
 	// a context without element.
-	if c.state == stateText && len(c.element.names) == 0 {
-		if c.element.name == "" {
-			return templateName
+	if c.state == stateText && !c.element.split {
+		plain := true
+		for _, name := range append([]string{c.element.name}, c.element.names...) {
+			if name == "" {
+				continue
+			}
+			if sc, err := sanitizationContextForElementContent(name); err != nil || sc != sanitizationContextHTML {
+				plain = false
+			}
 		}
-		if sc, err := sanitizationContextForElementContent(c.element.name); err == nil && sc == sanitizationContextHTML {
+		if plain {
 			return templateName
 		}
 	}
@@ -566,14 +572,27 @@ func mangle(c context, templateName string) string {
 	if len(c.attr.names) > 0 {
 		s += "_attrs(" + strings.Join(c.attr.names, ",") + ")"
 	}
+	if c.state == stateAttr && c.attr.afterAction && enumAttrVal(c) {
+		// (In an enumerated value static text after an action is refused.)
+		s += "_afterAction"
+	}
 	if c.nameOpen {
 		s += "_nameOpen"
 	}
 	if c.tagNameOpen {
 		s += "_tagNameOpen"
 	}
-	if c.element.split || c.element.attrSplit || c.attr.split {
-		s += "_nameSplit"
+	if c.element.split {
+		s += "_tagNameSplit"
+	}
+	if c.element.attrSplit {
+		s += "_someAttrNameSplit"
+	}
+	if c.attr.split {
+		s += "_attrNameSplit"
+	}
+	if c.state == stateAttr && c.attr.ambiguousValue {
+		s += "_ambiguousValue"
 	}
 	return s
 }
